@@ -125,6 +125,8 @@ def generate(ctx):
                                     + (EXTRA_VARIANTS if (ctx.tier == 'thorough' and not big) else []),
                         'full_methods_variants': [0] if (big or ctx.tier == 'quick') else [n % 8, (n + 5) % 8]}
 
+    yield 'cache_integrity', {}
+
 
 # ---------------------------------------------------------------------------
 def r_jit_static(ctx, a):
